@@ -13,7 +13,7 @@ RULE = ('cases: syntax trees generated from the documented grammar of expression
         'generator; the tree is rendered to a string with legal whitespace variation and evaluated through Namespace (\'expr\' @ ns, ns.x_ij = \'expr\'); oracle: numpy einsum-style '
         'evaluation of the tree. Rule-targeted corruptions of valid strings (third index occurrence, length mismatch, differing index sets, unknown name, misplaced number, missing '
         'space around +/-, unbalanced/mismatched brackets, whitespace around ^, free index in denominator/exponent, repeated / or ^, variable called, wrong index count, numeral out of '
-        'range) must raise ExpressionSyntaxError. non-trivial: >=1 summed index and depth >=2; every corruption case; distinct = rendered string')
+        'range) and four corruptions generated on the tree (third use of a summed index in a term, numerator index summed again in the denominator, axis length mismatch, extra free index in one term) must raise ExpressionSyntaxError in version 2 and, where the same rule is documented there, in version 1; every generated tree without generating functions is also evaluated through the version 1 namespace. non-trivial: >=1 summed index and depth >=2; every corruption case; distinct = rendered string')
 ASSUMPTIONS = ['numpy evaluation of the generated tree is the intended reading (known by construction)', 'random single-character edits are not asserted (no independent recogniser built)']
 
 LETTERS = 'ijklmnpqrs'
